@@ -105,6 +105,35 @@ func lookaheadSites(info *types.Info, fd *ast.FuncDecl) []laSite {
 				if b, k, ok := splitOffset(info, x.Args[1]); ok && k >= 1 {
 					out = append(out, laSite{x, b, k, "read " + types.ExprString(x)})
 				}
+				return true
+			}
+			// a scanner of the module handed the text and a position behind the cursor reads the byte there
+			// (skipWhiteSpace(src, cursor+1), compactValue(dst, src, cursor+1, …)): the call is a read at cursor+k
+			if f := core.Callee(info, x); f != nil && f.Pkg() != nil && info.Defs[fd.Name] != nil && f.Pkg() == info.Defs[fd.Name].Pkg() {
+				sig, _ := f.Type().(*types.Signature)
+				if sig == nil || sig.Variadic() {
+					return true
+				}
+				hasText := false
+				for i := 0; i < sig.Params().Len() && i < len(x.Args); i++ {
+					if t := sig.Params().At(i).Type().String(); t == "[]byte" {
+						hasText = true
+					}
+				}
+				if !hasText {
+					return true
+				}
+				for i := 0; i < sig.Params().Len() && i < len(x.Args); i++ {
+					if bt, ok := sig.Params().At(i).Type().Underlying().(*types.Basic); !ok || bt.Kind() != types.Int64 {
+						continue
+					}
+					if !isCursorObj(sig.Params().At(i)) {
+						continue
+					}
+					if b, k, ok := splitOffset(info, x.Args[i]); ok && k >= 1 {
+						out = append(out, laSite{x, b, k, fmt.Sprintf("call %s(…%s…)", f.Name(), types.ExprString(x.Args[i]))})
+					}
+				}
 			}
 		}
 		return true
@@ -253,6 +282,41 @@ func guardedLookahead(rc *core.RC, fd *ast.FuncDecl, cf *core.FuncCFG, s laSite,
 	sb, _ := cf.BlockOf(s.node)
 	ok := false
 	why := ""
+	// `if X[base] == K { … } else { leave }` in front of the read, the cursor not set again in between
+	if sentinel && s.k == 1 {
+		ast.Inspect(fd.Body, func(n ast.Node) bool {
+			ifs, isIf := n.(*ast.IfStmt)
+			if !isIf || ok || ifs.Else == nil || ifs.End() > s.node.Pos() {
+				return true
+			}
+			eb, isBlk := ifs.Else.(*ast.BlockStmt)
+			if !isBlk || len(eb.List) == 0 {
+				return true
+			}
+			if _, isRet := eb.List[len(eb.List)-1].(*ast.ReturnStmt); !isRet {
+				return true
+			}
+			cnd, flip := stripNot(ifs.Cond)
+			be, isB := core.Unparen(cnd).(*ast.BinaryExpr)
+			if !isB || !((!flip && be.Op == token.EQL) || (flip && be.Op == token.NEQ)) {
+				return true
+			}
+			if v, isC := core.ConstInt(info, be.Y); !isC || v == 0 {
+				return true
+			}
+			gb, _ := cf.BlockOf(ifs.Cond)
+			if gb == nil || sb == nil || !cf.Dominates(gb, sb) {
+				return true
+			}
+			if pb, pk, okp := accessOffset(info, be.X); okp && pb == s.base && pk == 0 && !baseAssignedBetween(info, fd, s.base, ifs.Pos(), s.node.Pos()) {
+				ok, why = true, "the byte at "+s.base+" equals a non-NUL constant (the else branch of `"+core.Src(rc.P.Fset, ifs.Cond)+"` leaves), and "+s.base+" is not set again before the read"
+			}
+			return true
+		})
+		if ok {
+			return true, why
+		}
+	}
 	ast.Inspect(fd.Body, func(n ast.Node) bool {
 		ifs, isIf := n.(*ast.IfStmt)
 		if !isIf || ok || len(ifs.Body.List) == 0 {
@@ -289,10 +353,16 @@ func guardedLookahead(rc *core.RC, fd *ast.FuncDecl, cf *core.FuncCFG, s laSite,
 			}
 			// sequential sentinel idiom: the previous byte was required to equal a non-NUL constant
 			if sentinel {
-				if be, isB := core.Unparen(d).(*ast.BinaryExpr); isB && be.Op == token.NEQ {
+				dd, flip := stripNot(d)
+				be, isB := core.Unparen(dd).(*ast.BinaryExpr)
+				if isB && ((!flip && be.Op == token.NEQ) || (flip && be.Op == token.EQL)) {
 					if v, isC := core.ConstInt(info, be.Y); isC && v != 0 {
 						if pb, pk, okp := accessOffset(info, be.X); okp && pb == s.base && pk == s.k-1 && pk >= 1 {
 							ok, why = true, "the previous byte was required to equal a non-NUL constant"
+						}
+						// the byte under the cursor itself: valid as long as the cursor is not set again in between
+						if pb, pk, okp := accessOffset(info, be.X); okp && pb == s.base && pk == 0 && s.k == 1 && ifs.End() <= s.node.Pos() && !baseAssignedBetween(info, fd, s.base, ifs.End(), s.node.Pos()) {
+							ok, why = true, "the byte at "+s.base+" was required to equal a non-NUL constant (`"+core.Src(rc.P.Fset, d)+"` leaves), and "+s.base+" is not set again before the read"
 						}
 					}
 				}
@@ -332,7 +402,14 @@ func guardedLookahead(rc *core.RC, fd *ast.FuncDecl, cf *core.FuncCFG, s laSite,
 			if !isSw || sw.Tag == nil {
 				continue
 			}
-			if tb, tk, okt := accessOffset(info, sw.Tag); okt && tb == s.base && tk == 0 {
+			tag := sw.Tag
+			if id, isID := core.Unparen(tag).(*ast.Ident); isID {
+				// c := buf[cursor]; switch c { … }
+				if def := singleDef(info, fd.Body, core.ObjOf(info, id)); def != nil {
+					tag = def
+				}
+			}
+			if tb, tk, okt := accessOffset(info, tag); okt && tb == s.base && tk == 0 && !baseAssignedBetween(info, fd, s.base, sw.Pos(), s.node.Pos()) {
 				nonzero := true
 				for _, e := range cc.List {
 					if v, isC := core.ConstInt(info, e); !isC || v == 0 {
@@ -346,6 +423,48 @@ func guardedLookahead(rc *core.RC, fd *ast.FuncDecl, cf *core.FuncCFG, s laSite,
 		}
 	}
 	return false, ""
+}
+
+// baseAssignedBetween reports an assignment (or ++/--) to the position expression base between two source positions,
+// on the way to the position `to`: an assignment inside a case clause or a branch that does not hold `to` belongs to
+// another path and is not counted.
+func baseAssignedBetween(info *types.Info, fd *ast.FuncDecl, base string, from, to token.Pos) bool {
+	hit := false
+	onTheWay := func(n ast.Node) bool {
+		for _, anc := range core.PathTo(fd.Body, n) {
+			switch b := anc.(type) {
+			case *ast.CaseClause:
+				if !(b.Pos() <= to && to <= b.End()) {
+					return false
+				}
+			case *ast.BlockStmt:
+				if ast.Node(b) != ast.Node(fd.Body) && !(b.Pos() <= to && to <= b.End()) {
+					// a branch (if body, else body, loop body) that ends before the read
+					return false
+				}
+			}
+		}
+		return true
+	}
+	ast.Inspect(fd.Body, func(n ast.Node) bool {
+		switch x := n.(type) {
+		case *ast.AssignStmt:
+			// (an assignment whose right-hand side holds the read takes effect after it)
+			if x.Pos() >= from && x.Pos() < to && x.End() < to {
+				for _, l := range x.Lhs {
+					if types.ExprString(core.Unparen(l)) == base && onTheWay(x) {
+						hit = true
+					}
+				}
+			}
+		case *ast.IncDecStmt:
+			if x.Pos() >= from && x.Pos() < to && types.ExprString(core.Unparen(x.X)) == base && onTheWay(x) {
+				hit = true
+			}
+		}
+		return true
+	})
+	return hit
 }
 
 // accessOffset matches buf[base+k], s.buf[base+k], char(p, base+k).
